@@ -89,6 +89,7 @@ func execC10(t *testing.T, c C10Case) (v Verdict) {
 	serveReturnedBeforeGates := false
 	var tap []kit.Ev
 	writeFailHit := false
+	var remaining []string
 	res := kit.Bubble(t, func() {
 		svc := kit.NewSvc()
 		sched := kit.NewSched()
@@ -356,9 +357,21 @@ func execC10(t *testing.T, c C10Case) (v Verdict) {
 		}
 		mu.Unlock()
 		// now let the context-ignoring unary handlers finish; afterwards nothing may be left
-		sched.Drain()
+		sched.ReleaseGates()
 		kit.Settle()
 		tap = w.Tap.Snapshot()
+		if done {
+			// Serve has returned and every handler has finished, while the transport and the context Serve was called with
+			// are still as they were: whatever goroutine still runs library code was started for this connection. (The
+			// scripted caller has no goroutines of its own; transport calls honour the context they are given.)
+			for _, g := range kit.LiveInBubble() {
+				if strings.Contains(g, "github.com/avos-io/goat") {
+					remaining = append(remaining, g)
+				}
+			}
+		}
+		sched.Drain()
+		kit.Settle()
 		w.Shutdown()
 		kit.Settle()
 	})
@@ -399,6 +412,9 @@ func execC10(t *testing.T, c C10Case) (v Verdict) {
 		if !o.exited {
 			v.failf("handler h%d (%s) never returned", i, h.Kind)
 		}
+	}
+	if len(remaining) > 0 && v.Fail == "" {
+		v.failf("Serve has returned (%s) and all handlers have finished, but goroutines of the connection remain (transport and Serve context untouched): %s", c.Ending, strings.Join(kit.StackSites(remaining), " ;; "))
 	}
 	if len(res.Leaked) > 0 && v.Fail == "" {
 		v.failf("goroutines left after the connection ended and all handlers returned: %s", strings.Join(kit.StackSites(res.Leaked), " ;; "))
